@@ -30,6 +30,7 @@ package ast
 //@ axiom wfContinueIfStmt(s *ContinueIfStmt): WFNode(iface(s)) ==> WFN(s.Condition)
 //@ axiom wfComponentStmt(s *ComponentStmt): WFNode(iface(s)) ==> s.Name != nil && WFNode(iface(s.Name)) && (s.Block != nil ==> WFNode(iface(s.Block)))
 //@      && (s.Argument != nil ==> WFNode(iface(s.Argument)))
+//@      && forall(k, 0, len(s.Slots), s.Slots[k] != nil && (s.Slots[k].Body != nil ==> WFNode(iface(s.Slots[k].Body))))
 //@ axiom wfSlotStmt(s *SlotStmt): WFNode(iface(s)) ==> s.Name != nil && (s.Body != nil ==> WFNode(iface(s.Body)))
 //@ axiom wfDumpStmt(s *DumpStmt): WFNode(iface(s)) ==> forall(k, 0, len(s.Arguments), WFN(s.Arguments[k]))
 //@ axiom wfIndexExp(x *IndexExp): WFNode(iface(x)) ==> WFN(x.Left) && WFN(x.Index)
@@ -56,7 +57,7 @@ package ast
 //@ axiom wfEachStmtI(s *EachStmt): s != nil && s.Var != nil && WFN(s.Array) && s.Block != nil && WFNode(iface(s.Block)) && (s.Alternative != nil ==> WFNode(iface(s.Alternative))) ==> WFNode(iface(s))
 //@ axiom wfBreakIfStmtI(s *BreakIfStmt): s != nil && WFN(s.Condition) ==> WFNode(iface(s))
 //@ axiom wfContinueIfStmtI(s *ContinueIfStmt): s != nil && WFN(s.Condition) ==> WFNode(iface(s))
-//@ axiom wfComponentStmtI(s *ComponentStmt): s != nil && s.Name != nil && WFNode(iface(s.Name)) && (s.Block != nil ==> WFNode(iface(s.Block))) && (s.Argument != nil ==> WFNode(iface(s.Argument))) ==> WFNode(iface(s))
+//@ axiom wfComponentStmtI(s *ComponentStmt): s != nil && s.Name != nil && WFNode(iface(s.Name)) && (s.Block != nil ==> WFNode(iface(s.Block))) && (s.Argument != nil ==> WFNode(iface(s.Argument))) && forall(k, 0, len(s.Slots), s.Slots[k] != nil && (s.Slots[k].Body != nil ==> WFNode(iface(s.Slots[k].Body)))) ==> WFNode(iface(s))
 //@ axiom wfSlotStmtI(s *SlotStmt): s != nil && s.Name != nil && (s.Body != nil ==> WFNode(iface(s.Body))) ==> WFNode(iface(s))
 //@ axiom wfDumpStmtI(s *DumpStmt): s != nil && forall(k, 0, len(s.Arguments), WFN(s.Arguments[k])) ==> WFNode(iface(s))
 //@ axiom wfIndexExpI(x *IndexExp): x != nil && WFN(x.Left) && WFN(x.Index) ==> WFNode(iface(x))
@@ -90,6 +91,25 @@ package ast
 
 // ---- layouts and components (C06, C07) ----
 
+// what a program that parsed without errors carries besides its statement list: the nodes
+// the resolution steps reach through the side tables are well-formed too
+//@ pred ProgWF(p *Program) = p != nil && WFNode(iface(p))
+//@      && forall(i, 0, len(p.Components), WFNode(iface(p.Components[i])))
+//@      && forallkey(p.Inserts, k, WFNode(iface(p.Inserts[k])))
+//@      && (p.UseStmt != nil ==> WFNode(iface(p.UseStmt)))
+
+// The resolution steps below write nodes that the parser has already handed out. WFNode does
+// not depend on the heap, so each such store must keep what WFNode promises about the
+// written field: asserted at every store to these fields of an object the storing function
+// did not allocate itself (safety:store-invariant), and every other store into syntax-tree
+// memory of a foreign object is rejected by the scan ast-written-only-under-construction.
+//@ storeinv ast.ReserveStmt.Insert: v == nil || WFNode(iface(v))
+//@ storeinv ast.UseStmt.Program: v == nil || WFNode(iface(v))
+//@ storeinv ast.ComponentStmt.Block: v == nil || WFNode(iface(v))
+//@ storeinv ast.SlotStmt.Body: v == nil || WFNode(iface(v))
+//@ storeinv ast.Program.Statements: forall(k, 0, len(v), WFN(v[k]))
+//@ storeinv ast.Program.IsLayout: true
+
 //@ nonnil values map[string]*ReserveStmt
 //@ nonnil values map[string]*InsertStmt
 //@ nonnil elems []*ComponentStmt
@@ -117,6 +137,7 @@ package ast
 // every reserve of the layout receives the page's insert of its own name, or keeps what it
 // had; nothing else is written (whole-view postcondition over all reserves)
 //@ func (p *Program) ApplyInserts
+//@   requires inserts-are-well-formed: forallkey(inserts, k, WFNode(iface(inserts[k])))
 //@   requires forallkey(p.Reserves, k, p.Reserves[k].Name.Value == k)
 //@   ensures result == nil <==> forallkey(inserts, k, has(p.Reserves, k))
 //@   ensures result == nil ==> forallkey(p.Reserves, k, p.Reserves[k].Insert == ite(has(inserts, k), inserts[k], old(p.Reserves[k].Insert)))
@@ -125,7 +146,7 @@ package ast
 
 // the page's own statements are replaced by the @use statement, which carries the layout
 //@ func (p *Program) ApplyLayout
-//@   requires p.UseStmt != nil
+//@   requires p.UseStmt != nil && WFNode(iface(p.UseStmt)) && (prog == nil || WFNode(iface(prog)))
 //@   ensures p.UseStmt.Program == prog && len(p.Statements) == 1 && p.Statements[0] == iface(p.UseStmt) && p.UseStmt == old(p.UseStmt)
 //@   modifies p.Statements, p.UseStmt.Program
 
@@ -150,6 +171,8 @@ package ast
 //@   call New#2: assert line-of-the-offending-slot: arg0 == slot__1.Token.Pos.EndLine + 1
 //@   loop 1: invariant line == comp.Token.Pos.EndLine + 1
 //@   requires prog != nil && forall(k, 0, len(prog.Statements), prog.Statements[k] != nil && refof(prog.Statements[k]) != 0)
+//@   requires WFNode(iface(prog)) && forall(i, 0, len(p.Components), WFNode(iface(p.Components[i])))
+//@   call findSlotStmtIndex#0: use wfComponentStmt(comp)
 //@   requires forall(i, 0, len(p.Components), forall(j, 0, len(p.Components), i != j ==> p.Components[i] != p.Components[j]))
 //@   requires forall(i, 0, len(p.Components), p.Components[i].Block != prog)
 //@   ensures independent: result == nil ==> forall(i, 0, len(p.Components), forall(j, 0, len(p.Components), i != j && p.Components[i].Block == prog ==> p.Components[j].Block != prog))
